@@ -291,10 +291,13 @@ def r4(ctx):
                 ctx.inconclusive('R4', 'type:%s' % name, f, 'unknown filter type (rule table needs confirming)')
                 continue
             fn_, fld = want[name]
-            visits, _t = abstract_run(f, dict(env0, **{typ: v}), tracked={typ} | set(env0), start=sw[0].id)
+            # locals that are assigned one of the call site's strings (possibly chosen by the type) are followed too
+            csvars = {estr(st_.lhs) for st_ in f.events('STORE') if unwrap(st_.lhs).get('k') == 'var' and st_.rhs is not None and
+                      any(n_.get('k') == 'mem' and n_.get('rec') == 'qb_log_callsite' for n_ in walk(st_.rhs))}
+            visits, _t = abstract_run(f, dict(env0, **{typ: v}), tracked={typ} | set(env0) | csvars, start=sw[0].id)
             used = set()
             for (ev, env) in visits:
-                if ev.kind == 'CALL' and ev.callee == fn_:
+                if ev.kind == 'CALL' and (ev.callee == fn_ or (fn_ == 'strcmp' and ev.callee == 'strncmp')):
                     for a in ev.args:
                         au = unwrap(a)
                         if au.get('k') == 'mem' and au.get('rec') == 'qb_log_callsite':
